@@ -433,8 +433,8 @@ def run(run: Run):
     run.prove(['tr_prio'])
 
     quick = run.tier == 'quick'
-    n_driven = 150 if quick else 1200
-    n_free = 40 if quick else 300
+    n_driven = 150 if quick else 800
+    n_free = 40 if quick else 200
     maxops = 26 if quick else 40
     cases = []
     reported = set()
